@@ -74,6 +74,13 @@ func c08Bundles() map[string][]string {
 			"{namespace z}\n/**\n * @param? b\n */\n{template .one}\n{msg desc=\"d\"}Hello {$b.label}!{/msg}\n{/template}\n" +
 				"/**\n * @param? b\n * @param? m\n */\n{template .two}\n{msg desc=\"d\"}Hello {$m.label}!{/msg}{if false}{$b}{/if}\n{/template}\n",
 		},
+		// a custom function that hands back its argument: the map a call extends with its params is
+		// then the caller's own (the function exists only in the configurations that install it)
+		"funcs": {
+			"{namespace u}\n/**\n * @param? m\n * @param? b\n */\n{template .via}\n{call .row data=\"ident($m)\"}{param i: 5 /}{/call}[{$m?.i ?: 'no i'}]" +
+				"{call .row data=\"ident($b)\"}{param i}c{/param}{param label: 'L' /}{/call}[{$b?.label ?: 'no label'}]\n{/template}\n" +
+				"/**\n * @param i\n * @param? label\n */\n{template .row}\n({$i}:{$label ?: 'nl'})\n{/template}\n",
+		},
 		"loops": {
 			"{namespace q}\n/**\n * @param l\n * @param? m\n */\n{template .main}\n{foreach $x in $l}{foreach $y in $x}{$y}{ifempty}-{/foreach}|{/foreach}after" +
 				"{for $i in range(2)}{call .row}{param i: $i /}{/call}{/for}{call .row}{param i: 9 /}{param m: $m /}{/call}{call .row data=\"all\"}{param i: 7 /}{/call}\n{/template}\n" +
@@ -118,7 +125,7 @@ func checkC08(c *Ctx) {
 	}
 	maxLen := 3
 	bundles := c08Bundles()
-	for _, bname := range []string{"core", "loops", "msgs"} {
+	for _, bname := range []string{"core", "loops", "msgs", "funcs"} {
 		files := bundles[bname]
 		for _, cf := range configs {
 			bname, files, cf := bname, files, cf
